@@ -17,6 +17,9 @@ def run(chk, replay):
         # the working directory changes between validations of plotfiles typed under a relative name (PoolEnv.tla)
         from harness import poolenv
         poolenv.tool_phase(chk, "taste")
+        # hierarchies with refinement ratio 4 and with MIXED ratios, three and four levels deep (Refine.tla), every option set
+        from harness import refine
+        refine.phase(chk, "taste")
 
 
 def real_history_phase(chk):
